@@ -5,7 +5,7 @@ from .. import tlc, tracecheck, splitfam
 from ..core import MachineryError, cps, uncps
 from ..project import text_of
 from ..spell import spell, checked_pools
-from ..lexrec import sigma_strings, SIGMA_QUICK, random_unicode
+from ..lexrec import sigma_strings, SIGMA_QUICK, random_unicode, opener_mixes
 from .c01 import repo_texts
 from .c17 import ALL as PROC_ALL
 
@@ -64,6 +64,8 @@ def run(ctx):
     nscripts = len(texts)
     texts += list(sigma_strings(SIGMA_QUICK, 2 if quick else 3))
     texts += [random_unicode(rng, 60) for _ in range(1000 if quick else 8000)]
+    mixes = list(opener_mixes(2))
+    texts += mixes if not quick else mixes[::2] + ['select 1; # ', ';# ']
     fx = repo_texts()
     texts += [t[:300] for t in fx]
     texts += ['select 1;\n' + t[:250] + ';\nselect 2' for t in fx]
